@@ -74,7 +74,7 @@ def hyperbolic_artists(tier, rng, rep):
     rep.rule = ("random polygons with 3..8 vertices in the disc of Klein radius 0.9 (every 4th: a vertex at the origin; every 5th: an edge through the origin; every 6th: nearly collinear vertices, "
                 "arc radius above the threshold), three models, identity and random drawing transforms; the closed path is flattened and every sample must lie on an edge of the transformed polygon "
                 "and the vertices must be visited in order; segments: Arc centre / radius / angles vs the geodesic through the endpoints; non-trivial = special position or non-identity transform")
-    rep.bound = f"{N} rounds x 3 models x 2 transforms"
+    rep.bound = f"{N} rounds x 3 models x 3 transforms (none, an isometry M, the same isometry as -M)"
     for t in range(N):
         m = int(rng.integers(3, 9))
         ang = np.sort(rng.uniform(0, 2 * np.pi, m))
@@ -96,10 +96,12 @@ def hyperbolic_artists(tier, rng, rep):
             k[j0], k[(j0 + 1) % m] = e0, e1
             special = "edge_exactly_on_a_diameter"
         for model in ("poincare", "halfspace", "klein"):
-            for use_tf in (False, True):
+            for use_tf in (False, True, "negated"):
                 if use_tf:
                     v = rng.normal(size=2); v = v / np.linalg.norm(v) * rng.uniform(0.1, 0.7)
                     T = h.Point(v, model="klein").origin_to() @ h.Isometry.standard_rotation(rng.uniform(-3, 3))
+                    if use_tf == "negated":         # the same isometry given by the matrix -M (images get negative time coordinates)
+                        T = h.Isometry(-T.proj_data)
                 else:
                     T = None
                 inp = {"klein_vertices": k.tolist(), "model": model, "transform": None if T is None else T.proj_data.tolist(), "special": special}
@@ -109,6 +111,10 @@ def hyperbolic_artists(tier, rng, rep):
                     try:
                         dr = drawtools.HyperbolicDrawing(model=model, fig=fig, ax=ax, transform=T)
                         poly = h.Polygon(h.Point(k.copy(), model="klein"))
+                        if use_tf == "negated" or (t % 2 and not use_tf):
+                            # vertices given by arbitrary homogeneous representatives (either sign, any scale)
+                            sg = rng.choice([-1.0, 1.0], size=(m, 1)) * 10.0 ** rng.uniform(-1, 1, size=(m, 1))
+                            poly = h.Polygon(h.Point(sg * spec.k2proj(k)))
                         n0 = len(ax.patches) + len(ax.collections)
                         dr.draw_polygon(poly)
                         kt = ((T @ h.Point(k.copy(), model="klein")) if T is not None else h.Point(k.copy(), model="klein")).coords("klein")
@@ -186,7 +192,10 @@ def hyperbolic_artists(tier, rng, rep):
                                 if not (abs(art.width - art.height) <= 1e-12) or not (abs(np.linalg.norm(a_ - c) - r) <= 1e-6 * (1 + r)) or not (abs(np.linalg.norm(b_ - c) - r) <= 1e-6 * (1 + r)):
                                     rep.fail("arc_through_endpoints", f"centre {c} radius {r}", inp); return
                                 orth = (c @ c - 1 - r * r) if model == "poincare" else c[1]
-                                if not (abs(orth) <= 1e-6 * (1 + r * r)):
+                                # half-plane: the centre's height is the mean height of the computed ideal endpoints, which are
+                                # sqrt(|1 - |k|^2|)-conditioned at the boundary (1e-8 .. 2e-5 in float64), amplified by the chart
+                                tol_o = 1e-6 * (1 + r * r) + (5e-5 * (1 + abs(c[0]) + r) if model == "halfspace" else 0.0)
+                                if not (abs(orth) <= tol_o):
                                     rep.fail("arc_orthogonal_to_boundary", f"{orth}", inp); return
                                 t1, t2 = np.deg2rad(art.theta1), np.deg2rad(art.theta2)
                                 if t2 < t1:
